@@ -6,7 +6,8 @@ Driver for stream `tokens` (C05).  One op per line, one observation per line.
                                                       -> ok            state after block 0's OnPersist (natives initialised)
        STANDBY k,k,..   KEYACC k:acc,..   MSIG acc:k:k:..,..|-
   block IDX                                           -> ok | ok cc    cc = CommitteeChanged is emitted
-  onpersist PRIMARYINDEX NOTARIES NTX {SENDER SYS NET NKEYS|- PAYER|-}*     -> ok | panic | bad-op
+  onpersist PRIMARYINDEX NOTARIES NTX {SENDER SYS NET NKEYS|- PAYER|-}*     -> ok | ok uncovered | panic | bad-op
+                                                      (uncovered: the hypothesis of onpersist_total fails on this block)
   tx SENDER SIGNERS                                   -> ok            SIGNERS acc:scopes[:allowed..],..
   transfer neo|gas SRC DST AMT CALLER RECV DATA       -> .             RECV n|a|x|cb   DATA o | nt DTO|- TILL | pk PUB
                                                                        CALLER = calling contract or - (entry script)
@@ -174,7 +175,10 @@ def output (s : St) (op : Op) (s' : St) : String :=
   match op with
   | .block _ => if s.env.csize ≠ 0 ∧ s'.env.index % s.env.csize = 0 ∧ committeeChanged s.cur then "ok cc" else "ok"
   | .txBegin .. => "ok"
-  | .onPersist .. | .postPersist =>
+  | .onPersist pidx _ txs =>
+    if s'.panicked && !s.panicked then "panic"
+    else if coveredB s.env s.cur pidx txs then "ok" else "ok uncovered"
+  | .postPersist =>
     if s'.panicked && !s.panicked then "panic" else "ok"
   | .txEnd _ =>
     match s'.last with
